@@ -21,6 +21,14 @@ Inductive op :=
 | OpTimer
 | OpPrune.
 
+(** [handle_submit] (after fix F27): a task graph naming a resource request it does not define is
+    refused with an error before anything else is looked at; the first such task is reported. *)
+Fixpoint bad_graph_rq (n_rqs : nat) (ts : list gtask) : option N :=
+  match ts with
+  | [] => None
+  | g :: r => if N.ltb (gt_rq g) (N.of_nat n_rqs) then bad_graph_rq n_rqs r else Some (gt_id g)
+  end.
+
 Definition init_sys (reserve maxfill : N) : sys :=
   mkSys (mkCore [] [] [] [] [] false 0 reserve maxfill) (mkHq [] 1) [].
 
@@ -34,7 +42,11 @@ Definition step (s : sys) (o : op) : res (sys * list out) :=
       | Some _ => on_remove_worker s0 w reason a p t
       end
   | OpSubmit job ids entries rq prio cl tlim mf => handle_submit_array s0 job ids entries rq prio cl tlim mf
-  | OpSubmitG job rqs ts mf => handle_submit_graph s0 job rqs ts mf
+  | OpSubmitG job rqs ts mf =>
+      match bad_graph_rq (length rqs) ts with
+      | Some id => Ok (s, [OResp (RSubmitErr 5 id)])
+      | None => handle_submit_graph s0 job rqs ts mf
+      end
   | OpOpen mf => handle_open s0 mf
   | OpClose j => handle_close s0 j
   | OpCancel j => handle_cancel s0 j
